@@ -837,9 +837,12 @@ static int conf_replace_value(struct conf_node_base *target_, struct conf_node_b
             target->value = NULL;
             conf_parse_string_value(target);
             /* Reverting to a NULL default is a change that
-             * conf_parse_string_value() cannot see any more.
+             * conf_parse_string_value() cannot see any more.  (A
+             * node nobody registered is about to be deleted; its
+             * parent gets the notification.)
              */
-            if (orig_value && !target->value && target_->hook)
+            if (orig_value && !target->value && target_->specified
+                && target_->hook)
                 target_->hook(target_);
         }
         xfree(orig_value);
